@@ -160,7 +160,7 @@ Poll(o) ==
           \/ o \in {"none", "ltk", "ediv_rand"}                       \* key distribution is C34's business
           \/ o = "confirm" /\ phase = "lesc_keys"
           \/ o = "dhkey"   /\ phase = "lesc_rand" /\ ea = "good" /\ UserOk   \* deferred Eb: the stored Ea was correct
-          \/ o = "failed"  /\ phase # "idle"
+          \/ o = "failed"                                             \* giving up is always allowed
     /\ E("C34") => (o \in Items => enc /\ o \in budget)
     /\ CASE o = "confirm" /\ phase = "lesc_keys" ->
               /\ phase' = "lesc_conf"
